@@ -102,6 +102,7 @@ def units(tier):
         out.append({'fam': 'ag', 'op': oi, 'keys': [0, 1, 3], 'values': [1], 'depth': d3, 'shard': [0, 1]})
     for oi in range(len(ops)):
         out.append({'fam': 'abort', 'op': oi, 'depth': 4 if tier == 'quick' else 6})
+    out.append({'fam': 'deep'})
     nest = [[p] for p in PARENTS_B] + [[p, q] for p in PARENTS_B for q in PARENTS_B]
     if tier != 'quick':
         nest += [[p, q, r] for p in HO[::2] + ['tee_zipa', 'tee_clb'] for q in HO[1::2] + ['tee_mergea'] for r in PARENTS_B[::3]]
@@ -110,7 +111,29 @@ def units(tier):
     return out
 
 
+def deep_cases():
+    """Deep probes beyond the small alphabets: 150 simultaneously live groups through every higher-order operator, windows
+    beyond the interpreter's small-int range, and a second subscription of the same pipeline object (after a normal run and
+    after a run that ended with on_error)."""
+    out = []
+    many = [x % 150 for x in range(450)]
+    for h in HO:
+        for name in ('burst', 'stream'):
+            out.append({'fam': 'nested', 'spec': [['group_by', 'mod150', wrap(h, INNER_SPAN[name])]], 'seq': many})
+    for (w, s) in ((260, 130), (300, 300), (257, 256)):
+        out.append({'fam': 'nested', 'spec': [['roll', w, s, [['count', True]]]], 'seq': list(range(2 * w + 5))})
+    for h in HO + ['tee_zipa', 'tee_clb']:
+        for fail_at in (None, 0, 3):
+            out.append({'fam': 'resub', 'spec': wrap(h, [['count', True]]), 'seq': [0, 1, 2, 3, 4, 5, 6], 'fail_at': fail_at})
+            out.append({'fam': 'resub', 'spec': [['group_by', 'mod2', wrap(h, [['to_list']])]], 'seq': [0, 1, 2, 3, 4, 5, 6], 'fail_at': fail_at})
+    return out
+
+
 def cases(unit):
+    if unit['fam'] == 'deep':
+        for c in deep_cases():
+            yield c
+        return
     if unit['fam'] == 'abort':
         # a well-formed prefix, then ONE mux error for a live key, after which the stream is abandoned (in a real pipeline the
         # unhandled error becomes on_error at the demultiplexer and nothing follows)
@@ -198,6 +221,8 @@ def _run_case(case, acc):
             acc.nontrivial.add(fast_hash(repr(case)))
         acc.count('boundaries', mon.boundaries)
         return out
+    if case['fam'] == 'resub':
+        return run_resub(case, acc)
     spec, seq = case['spec'], case['seq']
     sink, ctx, store = harness.run_api(spec, seq)
     acc.evals += 1
@@ -217,6 +242,48 @@ def _run_case(case, acc):
     if not seq:
         acc.count('empty_source')
     acc.count('boundaries', mon.boundaries)
+    return out
+
+
+def run_resub(case, acc):
+    """The same pipeline OBJECT subscribed twice (what rx retry / repeat do): the first run completes normally or ends with an
+    on_error of the source after `fail_at` items; the protocol must hold at every boundary of the second run as well and the
+    second run must produce what a fresh pipeline produces."""
+    import rx
+    import rxsci as rs
+    from ..drivers import Sink, new_store
+    mon = monitor.MON
+    spec, seq, fail_at = case['spec'], case['seq'], case['fail_at']
+    store = new_store()
+    pipeline = rs.state.with_store(store, opspecs.build(spec))
+
+    def source(observer, scheduler=None):
+        for i, x in enumerate(seq):
+            if source.first and fail_at is not None and i == fail_at:
+                source.first = False
+                observer.on_error(RuntimeError('source failed'))
+                return
+            observer.on_next(x)
+        source.first = False
+        observer.on_completed()
+    source.first = True
+    obs = rx.create(source).pipe(pipeline)
+    first, second = Sink(), Sink()
+    first.subscribe_to(obs)
+    n1 = len(mon.problems)
+    second.subscribe_to(obs)
+    acc.evals += 2
+    acc.traces += 2
+    acc.events += mon.events
+    out = []
+    label = '>'.join(n for n in harness.opnames(spec) if n in ('group_by', 'roll', 'split', 'time_split', 'tee_map')) + ':resubscribed'
+    if mon.problems:
+        out.append(viol('nested', label, mon.problems, {'spec': spec, 'seq': seq, 'first_run_fails_after': fail_at,
+                                                        'problems_in_first_run': n1}))
+    # only the protocol is checked on the second run: whether its OUTPUT equals a fresh pipeline's is no listed property
+    # (a published tee_map source, for one, cannot be restarted after an error by RxPY design)
+    acc.count('resubscriptions')
+    acc.outcomes.add(fast_hash(repr((spec, fail_at, second.items))))
     return out
 
 
